@@ -17,14 +17,17 @@ from vf.tlc import MachineryError, render_cfg, require_ok, run_tlc, sany
 META = {
     "engine": "wire",
     "text": "TLC model-checks ShmXfer.tla: every history of unary calls (result classes around the shm threshold, "
-            "dictionary-encoded, void, request batch routed through the segment, method error, raising log callback), "
+            "dictionary-encoded, void, request batch routed through the segment, method error, unknown method, raising "
+            "log callback), "
             "producer and exchange streams (plain / dictionary / zero-column / zero-row batches, finish, raise, init "
             "error, mismatching input schema, close / cancel, caller releases each batch / at the end / never / later) "
             "over segments from 64 bytes of data region to large, with the first-fit allocation table, the threshold "
             "gate and the inline fallback, against Disjoint / Transparent / NoLeak (live regions = regions of batches "
             "the client still holds, after every call) / InputsReleasedAtEnd / NoReuse.  Histories of <= 6 calls taken "
             "from TLC's state graph (edge cover, plus random walks in thorough) are executed on real "
-            "ShmPipeTransport pairs (static and dynamically attached server side) with "
+            "ShmPipeTransport clients against a static ShmPipeTransport server, a serve() loop that attaches and caches "
+            "the client's segment, and an owner-driven serve_one() loop that attaches per call -- including a change "
+            "of segment on the live connection (pooled worker handed to the next borrower) -- with "
             "VGI_RPC_SHM_MIN_BATCH_BYTES in {0, 1, 2048} and on a plain pipe; the allocation table is read from the "
             "segment header after every client-visible step.  TLC validates every recorded trace against "
             "ShmXferTrace.tla (exact offsets, lengths and via-shm decisions) and judges the observable record "
@@ -48,6 +51,7 @@ PALETTES = {
     "tb": ["r_b", "r_e", "o_b", "o_e", "i_s"],
     "t0": ["q_s", "r_v", "r_d", "o_z", "o_0", "o_s", "i_s"],
     "t1x": ["q_m", "r_m", "r_L", "r_d", "o_s", "o_m", "o_L", "o_d", "i_m", "i_L", "i_d"],
+    "t1c": ["q_m", "r_m", "o_m", "o_n", "i_m"],      # dynamically attached servers, nested dictionaries
 }
 
 
@@ -72,7 +76,8 @@ def _wrapper(wd, name: str, base: str, cal: dict, configs: list, fixsets: list, 
         "RowsDef(c) == " + _case({k: v["rows"] for k, v in cal.items()}),
         f"ThrDef(w) == {thr}",
         f"AllowedDef(w, c) == {allowed}",
-        "ConfigsDef == {" + ", ".join(f'[cap |-> {c}, world |-> "{w}"]' for c, w in configs) + "}",
+        "ConfigsDef == {" + ", ".join(f'[cap |-> {c[0]}, world |-> "{c[1]}", att |-> "{c[2] if len(c) > 2 else "static"}"]'
+                                      for c in configs) + "}",
         "FixDef == {" + ", ".join(_set(f) for f in fixsets) + "}",
         "===="]
     (wd / f"{name}.tla").write_text("\n".join(body) + "\n")
@@ -85,7 +90,7 @@ def _consts(max_ticks: int, max_held: int) -> dict:
 
     return {"ReqC": Raw(_set(W.REQ_C)), "ResC": Raw(_set(W.RES_C)), "OutP": Raw(_set(W.OUT_P)),
             "OutD": Raw(_set(W.OUT_D)), "OutZ": Raw(_set(W.OUT_Z)), "InP": Raw(_set(W.IN_P)),
-            "InD": Raw(_set(W.IN_D)), "WrongC": W.WRONG_C, "MaxTicks": max_ticks, "MaxHeld": max_held}
+            "InD": Raw(_set(W.IN_D)), "WrongC": W.WRONG_C, "MaxTicks": max_ticks, "MaxHeld": max_held, "MaxSeg": 1}
 
 
 def _script(beh: list[dict], max_calls: int) -> list[dict]:
@@ -112,6 +117,8 @@ def _script(beh: list[dict], max_calls: int) -> list[dict]:
             ops.append({"op": "EndCall", "rel": args[0] == "TRUE"})
         elif a == "ReleaseHeld":
             ops.append({"op": "ReleaseHeld", "off": int(args[0])})
+        elif a == "NewSegment":
+            ops.append({"op": "NewSegment"})
         if b["state"]["st"]["pc"] == "idle":
             last_idle = len(ops)
     return ops[:last_idle]
@@ -150,10 +157,11 @@ def run(ctx: Ctx) -> None:
 
         # ---- (1) the design: exhaustive at small constants, intended repairs
         quick_cfgs = [(64, "t1"), (S["o_m"], "t1"), (2 * S["o_m"] + S["o_d"] + 100, "t1f"),
-                      (S["o_e"] + S["r_e"] + 8, "tb"), (S["o_z"] + S["o_s"] + S["r_d"], "t0")]
+                      (S["o_e"] + S["r_e"] + 8, "tb"), (S["o_z"] + S["o_s"] + S["r_d"], "t0"),
+                      (S["o_m"], "t1c", "cached"), (S["o_m"] + S["o_n"], "t1c", "percall")]
         big_cfgs = quick_cfgs + [(S["o_m"] + S["o_s"], "t1"), (2 * S["o_m"] + S["o_s"], "t1"), (1 << 20, "t1f"),
                                  (1 << 20, "tb"), (1 << 20, "t0"), (64, "t0"), (S["o_L"] + S["o_m"], "t1x"),
-                                 (S["o_m"], "t1x")]
+                                 (S["o_m"], "t1x"), (1 << 20, "t1c", "cached"), (64, "t1c", "percall"), (S["o_n"], "t1c", "static")]
         kw = _wrapper(wd, "MC_ShmAsFound", "ShmXfer", cal, [(S["o_m"] * 3, "t1")], [[]], PALETTES)
         orig = run_tlc(wd, "MC_ShmAsFound", render_cfg(constants=_consts(2, 1), invariants=INVS, **kw), workers=4)
         ctx.extra["design_without_repairs_violates"] = orig.violated
@@ -177,7 +185,7 @@ def run(ctx: Ctx) -> None:
 
         # ---- (2) spec -> code: histories from the state graph
         def key(s, lab, d):
-            return (lab, s["cfg"]["cap"], s["cfg"]["world"], s["st"]["k"], s["st"]["fail"], len(s["mem"]), len(s["held"]),
+            return (lab, s["cfg"]["cap"], s["cfg"]["world"], s["cfg"]["att"], s["seg"], s["st"]["k"], s["st"]["fail"], len(s["mem"]), len(s["held"]),
                     d["st"]["io"] != -1, len(d["mem"]), d["st"]["pc"])
 
         paths = g.edge_cover_paths(ctx.rng, max_paths=500 if ctx.quick else 6000, key=key, max_len=60)
@@ -200,7 +208,7 @@ def run(ctx: Ctx) -> None:
                 continue
             c0 = g.state(nodes[0])["cfg"]
             cap, world = c0["cap"], c0["world"]
-            mode = "dynamic" if pi % 4 == 3 else "static"
+            mode = c0["att"] if c0["att"] != "static" or pi % 4 != 3 else "cached"      # some static-config histories too
             sk = json.dumps([script, cap, world, mode])
             if sk in seen:
                 continue
@@ -208,9 +216,10 @@ def run(ctx: Ctx) -> None:
             seed = ctx.rng.randrange(1 << 30)
             tag0 = ctx.rng.randrange(1, 90) * 1000
             real = W.run_history(script, cap, world, mode, seed, tag0)
-            ik = json.dumps([script, seed, tag0])
+            ik = json.dumps([script, seed, tag0, mode == "percall"])
             if ik not in inline_cache:
-                inline_cache[ik] = W.run_history(script, cap, world, "pipe", seed, tag0)
+                inline_cache[ik] = W.run_history(script, cap, world, "pipe", seed, tag0,
+                                                 loop="serve_one" if mode == "percall" else "serve")
             inl = inline_cache.pop(ik)
             offered = any(e.get("via") for e in real["ev"]) or any(c["nlive"] for c in real["calls"]) or \
                 any(op["op"] == "Unary" for op in script)
@@ -225,7 +234,7 @@ def run(ctx: Ctx) -> None:
         W._cleanup()
 
     # ---- (3) code -> spec: TLC validates the step traces (drift) and judges the observable records (violations)
-    traces = [{"cap": r["cap"], "world": r["world"], "ev": r["real"]["ev"]} for r in runs]
+    traces = [{"cap": r["cap"], "world": r["world"], "att": r["mode"], "ev": r["real"]["ev"]} for r in runs]
     tconst = _consts(8, 64)
 
     verdicts = _validate_traces(ctx, wd, cal, traces, tconst, fx_code)
@@ -239,6 +248,14 @@ def run(ctx: Ctx) -> None:
             ctx.drift.append({"script": r["script"], "cap": r["cap"], "world": r["world"], "mode": r["mode"],
                               "rejected_at": v["matched"], "event": ev[v["matched"]] if v["matched"] < len(ev) else None})
     ctx.extra["traces_total"] = len(traces)
+    ctx.extra["histories_by_feature"] = {
+        "attach_static": sum(r["mode"] == "static" for r in runs), "attach_cached": sum(r["mode"] == "cached" for r in runs),
+        "attach_percall": sum(r["mode"] == "percall" for r in runs),
+        "segment_changed_on_live_connection": sum(any(o["op"] == "NewSegment" for o in r["script"]) for r in runs),
+        "unknown_method": sum(any(o.get("out") == "unk" for o in r["script"]) for r in runs),
+        "request_through_shm": sum(any(o.get("rq", "-") != "-" for o in r["script"]) for r in runs),
+        "nested_dictionary_output": sum(any(o.get("co") == "o_n" for o in r["script"]) for r in runs),
+        "exchange_inputs_with_metadata": sum(any(o.get("k") == "x" for o in r["script"]) for r in runs)}
     ctx.extra["traces_accepted_by_ShmXferTrace"] = accepted
 
     observations = []
@@ -270,7 +287,7 @@ def run(ctx: Ctx) -> None:
 def _validate_traces(ctx, wd, cal, traces, tconst, fx_code) -> list[dict]:
     """First pass: the repair set the probes found; traces it does not explain are retried with every subset."""
     def one(idx, fixsets, tag):
-        kw = _wrapper(wd, f"T_Shm_{tag}", "ShmXferTrace", cal, [(0, "t1")], fixsets, None)
+        kw = _wrapper(wd, f"T_Shm_{tag}", "ShmXferTrace", cal, [(0, "t1", "static")], fixsets, None)
         body = (wd / f"T_Shm_{tag}.tla").read_text().replace(
             "====", "TInit == TraceInit /\\ fx \\in FixDef\nTSpec == TInit /\\ [][TraceNext]_tvars\n====")
         (wd / f"T_Shm_{tag}.tla").write_text(body)
